@@ -1200,6 +1200,20 @@ class ConvertInstance:
             if isinstance(inp, out.Sequential):
                 result = IrGenerator.convert_sequential(inp)
 
+                if result._always_expr is not None:
+                    # the always block is emitted as concurrent statements
+                    # outside of the process that declares the variables
+
+                    def check_always_variables(obj, access):
+                        assert not isinstance(
+                            obj, Variable
+                        ), "variables cannot be used in always blocks"
+                        return obj
+
+                    result._always_expr.visit_referenced_objects(
+                        check_always_variables
+                    )
+
                 ConvertInstance.detect_uninitialized_temporaries(result)
 
                 if result.attributes.get("cleanup_unused", True):
